@@ -26,7 +26,49 @@ def gen_case(seed, i, engine):
     return core.Case("backend", lines, {"engine": engine, "sub": sub})
 
 
+def future_case(seed, i, engine):
+    """a range read at an explicit revision R ABOVE the committed one - R is the header of an acknowledged write while a
+    write with a smaller revision is still on its way to the engine (parked at its commit) - then a watch from R+1, the
+    slow write lands, more writes, and a later range read"""
+    r = rng_for(seed, "c06f/%d" % i)
+    a, b = PREFIX + b"/", PREFIX + b"0"
+    lines = [hist.cfg_line(engine), "gated 1"]
+    n0 = r.randint(0, 2)
+    j = 0
+    for x in range(n0):
+        j += 1
+        lines += ["start p%d create %s %s" % (j, hx(PREFIX + b"/a%d" % x), hx(b"v"))] + ["step p%d" % j] * 3
+    slow = j + 1
+    lines += ["start p%d create %s %s" % (slow, hx(PREFIX + b"/slow"), hx(b"v"))]       # parked at its commit
+    j += 1
+    n1 = r.randint(1, 2)
+    for x in range(n1):
+        j += 1
+        lines += ["start p%d create %s %s" % (j, hx(PREFIX + b"/b%d" % x), hx(b"v"))] + ["step p%d" % j] * 3
+    R = hist.INIT + j            # the revision the last acknowledged write was answered with
+    lines += ["echo base", "list %s %s %d 0" % (hx(a), hx(b), R), "watch w1 %s %d" % (hx(a), R + 1)]
+    lines += ["step p%d" % slow] * 3
+    j += 1
+    lines += ["start p%d create %s %s" % (j, hx(PREFIX + b"/c"), hx(b"v"))] + ["step p%d" % j] * 3
+    lines += ["rev", "drain w1", "echo later", "list %s %s 0 0" % (hx(a), hx(b))]
+    return core.Case("backend", lines, {"engine": engine, "sub": a, "future": True}, model_suite="sched")
+
+
 def oracle(case):
+    hit = oracle0(case)
+    if hit and case.meta.get("future") and getattr(case, "_mismatch", None):
+        # the listed finding is exactly this: the ONLY difference is the write that was in flight (its revision is not
+        # above R); anything else is reported under its own name
+        snap, cur = case._mismatch
+        slow = PREFIX + b"/slow"
+        if not (slow in cur and slow not in snap and dict((k, v) for k, v in cur.items() if k != slow) == snap):
+            return hit
+        return (hit[0] + " [the first range read was served at a revision above the committed one while a write with a "
+                "smaller revision was in flight]", "list-above-committed-misses-inflight-write")
+    return hit
+
+
+def oracle0(case):
     sub = case.meta["sub"]
     snap = None
     mode = None
@@ -44,6 +86,7 @@ def oracle(case):
                 snap = cur
             elif mode == "later" and snap is not None and not refused:
                 if cur != snap:
+                    case._mismatch = (dict(snap), dict(cur))
                     return ("line %d: applying the watch events to the earlier List gives %s, the later List (header %s) gives %s" % (
                         i + 1, snap, o[1], cur), "reconstruction-mismatch")
         elif t[0] == "drain" and len(o) >= 3 and snap is not None:
@@ -57,22 +100,15 @@ def oracle(case):
                         snap[k] = (v, int(rev))
             if o[3] == "closed=1":
                 refused = True
-    return hist.check_reads(case)
+    return None if case.meta.get("future") else hist.check_reads(case)
 
 
 def check(rep, tier, seed):
     n = 36 if tier == "quick" else 6000
     cases = [gen_case(seed, i, ENGINES[i % 3]) for i in range(n)]
+    cases += [future_case(seed, i, ENGINES[i % 3]) for i in range(3 if tier == "quick" else 60)]
     core.run_cases(cases)
-    for c in cases:
-        rep.count_case(c)
-        hit = oracle(c)
-        if hit:
-            if core.handle_oracle_hit(rep, "C06", hit[1], c, hit[0], hit[1]):
-                return
-            continue
-        if c.diff() is not None:
-            core.handle_diff(rep, "C06", "correspondence", c)
-            return
+    if core.judge(rep, "C06", cases, oracle):
+        return
     rep.assumptions += ["sequential writers around the reader/watcher (interleavings: C04 for the header revision, C05 for delivery)",
                         "non-tombstone values"]
